@@ -126,6 +126,8 @@ func (f *FieldR) goType() reflect.Type {
 		return reflect.SliceOf(reflect.PointerTo(f.Sub.cached()))
 	case "mapst":
 		return reflect.MapOf(reflect.TypeOf(""), f.Sub.cached())
+	case "mapsm":
+		return reflect.TypeOf(map[string]map[string]int64(nil))
 	case "arr3":
 		return reflect.ArrayOf(3, reflect.TypeOf(int64(0)))
 	}
@@ -283,6 +285,24 @@ func (f *FieldR) fill(rv reflect.Value) {
 			}
 			rv.Set(m)
 		}
+	case "mapsm":
+		if !v.Nil {
+			m := map[string]map[string]int64{}
+			for i, k := range v.Keys {
+				if i < len(v.Elems) && v.Elems[i] != nil && !v.Elems[i].Nil {
+					inner := map[string]int64{}
+					for j, ik := range v.Elems[i].Keys {
+						if j < len(v.Elems[i].Ints) {
+							inner[ik] = v.Elems[i].Ints[j]
+						}
+					}
+					m[k] = inner
+				} else {
+					m[k] = nil
+				}
+			}
+			rv.Set(reflect.ValueOf(m))
+		}
 	case "arr3":
 		for i := 0; i < 3 && i < len(v.Ints); i++ {
 			rv.Index(i).SetInt(v.Ints[i])
@@ -321,7 +341,7 @@ func clampInt(i int64, bits int) int64 {
 
 var fieldNames = []string{"A", "B", "C", "D", "E", "Name", "Value", "ID", "Xyz", "URL", "aBc", "X1", "LongFieldName", "Zed"}
 var scalarKinds = []string{"bool", "int", "int8", "int16", "int32", "int64", "uint", "uint8", "uint16", "uint32", "uint64", "float32", "float64", "string", "string", "int64"}
-var otherKinds = []string{"bytes", "ints", "strs", "mapsi", "pint", "pstr", "ppint", "any", "any", "arr3"}
+var otherKinds = []string{"bytes", "ints", "strs", "mapsi", "pint", "pstr", "ppint", "any", "any", "arr3", "mapsm"}
 var structKinds = []string{"struct", "pstruct", "structs", "pstructs", "mapst"}
 var tagForms = []string{"", "", "", `json:"%s"`, `json:"%s,omitempty"`, `json:",omitempty"`, `json:"-"`, `json:"%s,string"`, `json:"-,"`}
 var tagNames = []string{"a", "b", "name", "x_y", "Upper", "id", "with space", "é"}
@@ -460,8 +480,32 @@ func drawValue(t *rapid.T, f *FieldR, depth int) *ValueR {
 			if f.Kind == "pstructs" && rapid.IntRange(0, 3).Draw(t, "enil") == 0 {
 				e.Nil = true
 			}
+			// elements differ from each other: some fields get values of their own (in
+			// particular other nil / non-nil choices for slices, maps and pointers), so that
+			// state carried from one element to the next shows
+			if f.Sub != nil && !e.Nil && rapid.IntRange(0, 3).Draw(t, "vary") != 0 {
+				e.Elems = make([]*ValueR, len(f.Sub.Fields))
+				for j := range f.Sub.Fields {
+					if rapid.Bool().Draw(t, "own") {
+						e.Elems[j] = drawValue(t, &f.Sub.Fields[j], depth-1)
+					}
+				}
+			}
 			v.Elems = append(v.Elems, e)
 			v.Keys = append(v.Keys, "m"+strconv.Itoa(i))
+		}
+	case "mapsm":
+		v.Nil = rapid.IntRange(0, 4).Draw(t, "nil") == 0
+		n := rapid.IntRange(0, 3).Draw(t, "n")
+		for i := 0; i < n; i++ {
+			e := &ValueR{Nil: rapid.IntRange(0, 5).Draw(t, "inil") == 0}
+			m := rapid.IntRange(0, 2).Draw(t, "in")
+			for j := 0; j < m; j++ {
+				e.Keys = append(e.Keys, rapid.SampledFrom([]string{"a", "b", "c", "d"}).Draw(t, "ik"))
+				e.Ints = append(e.Ints, rapid.SampledFrom(valueInts).Draw(t, "iv"))
+			}
+			v.Elems = append(v.Elems, e)
+			v.Keys = append(v.Keys, "o"+strconv.Itoa(i))
 		}
 	}
 	return v
@@ -499,6 +543,7 @@ type ENode struct {
 	Elems   []*ENode
 	Keys    []string
 	Rules   []int
+	IsMap   bool     // object that stands for a Go map (not a struct)
 	Zones   []string // for MayDrop members: which open zone of the documentation
 	Feature []string // fragile features below this node (for triage)
 }
@@ -615,7 +660,7 @@ func Encode(rv reflect.Value, o EncOpts, feats map[string]bool) *ENode {
 		}
 		return n
 	case reflect.Map:
-		n := &ENode{Kind: "object"}
+		n := &ENode{Kind: "object", IsMap: true}
 		if rv.IsNil() {
 			feats["nil-map"] = true
 			n.Feature = []string{"nil"}
